@@ -805,6 +805,8 @@ static void mi_segment_slice_split(mi_segment_t* segment, mi_slice_t* slice, siz
   slice->slice_count = (uint32_t)slice_count;
 }
 
+static void mi_segment_free(mi_segment_t* segment, bool force, mi_segments_tld_t* tld);
+
 static mi_page_t* mi_segments_page_find_and_allocate(size_t slice_count, mi_arena_id_t req_arena_id, bool* commit_failed, mi_segments_tld_t* tld) {
   mi_assert_internal(slice_count*MI_SEGMENT_SLICE_SIZE <= MI_LARGE_OBJ_SIZE_MAX);
   *commit_failed = false;
@@ -828,6 +830,10 @@ static mi_page_t* mi_segments_page_find_and_allocate(size_t slice_count, mi_aren
           if (page == NULL) {
             // commit failed; return NULL but first restore the slice
             mi_segment_span_free_coalesce(slice, tld);
+            if (segment->used == 0) {
+              // a fresh segment that did not get its first page: give it back (empty segments are not kept)
+              mi_segment_free(segment, false, tld);
+            }
             *commit_failed = true;
             return NULL;
           }
